@@ -459,6 +459,23 @@ def check_number_result(ctx, fn, a, b, mx, res, equal):
         ctx.fail(case, "%s(%s, %s, max_=%s) = 0 although the values differ" % (fn, case["a"], case["b"], case["max_"]))
 
 
+def zero_guard_py(a, b, mx):
+    """zero_guard of DistModel.v restated on Python floats; None when float() overflows"""
+    try:
+        x = a if isinstance(a, float) else float(a)
+        y = b if isinstance(b, float) else float(b)
+    except OverflowError:
+        return None
+    if mx == 0:
+        d = math.nan if (x + y == 0 or math.isnan(x + y)) else math.copysign(math.inf, x + y) * math.copysign(1.0, mx)
+    else:
+        d = (x + y) / mx
+    u = x - y
+    if not (math.isfinite(u) and u != 0 and math.isfinite(d) and d != 0):
+        return False
+    return math.frexp(u)[1] - math.frexp(d)[1] >= -1074 + 2
+
+
 def numbers_part(ctx):
     from deepdiff.distance import _get_numbers_distance
     rng = ctx.rng
@@ -504,6 +521,7 @@ def numbers_part(ctx):
         triples.append((a, b, rng.choice([1.0, 0.3, 0.5])))
     ingrid = set(id(x) for x in grid)
     cases = []
+    gcases = []
     for (a, b, mx) in triples:
         res = call(_get_numbers_distance, a, b, mx)
         exp = obs_exc(res[1]) if res[0] == "exc" else obs_dres(res[1])
@@ -512,6 +530,13 @@ def numbers_part(ctx):
         tm = ref(mx, True) if any(mx is q for q in MAX_SPECIAL) else coq_float(mx)
         cases.append(("sx_dres (numbers_distance %s %s %s)" % (ta, tb, tm), exp,
                       {"a": repr(a), "b": repr(b), "max_": repr(mx)}))
+        if not (a == b) and not any(isinstance(q, float) and math.isnan(q) for q in (a, b, mx)) and (ctx.thorough or rng.random() < 0.4):
+            g = zero_guard_py(a, b, mx)
+            gcases.append(("sx_zero_guard %s %s %s" % (ta, tb, tm), g, {"guard_of": [repr(a), repr(b), repr(mx)]}))
+            ctx.count("zero_guard:" + ("conversion_overflows" if g is None else "inside" if g else "outside"))
+            if g and mx != 0 and not (res[0] == "ok" and isinstance(res[1], (int, float)) and res[1] != 0):
+                ctx.break_("correspondence", {"name": "numbers_zero_partial", "a": repr(a), "b": repr(b), "max_": repr(mx),
+                                              "meaning": "inside the guard of C19_numbers_zero_partial but the implementation returns %r" % (res[1],)})
         nt = not (a == b)
         ctx.seen(("num", repr(a), repr(b), mx), nontrivial=nt)
         ctx.count("numbers:" + ("equal" if not nt else "exception" if res[0] == "exc" else
@@ -521,6 +546,7 @@ def numbers_part(ctx):
             check_number_result(ctx, "_get_numbers_distance", a, b, mx, res, a == b)
     ctx.sample({"numbers_example": {"a": "1e308", "b": "1.7e308", "max_": 1.0, "impl": repr(_get_numbers_distance(1e308, 1.7e308, 1.0))}})
     ctx.coq_cases("numbers", HEADER + "\n" + "\n".join(defs), cases, shard=300, label="numbers_distance")
+    ctx.coq_cases("zero_guard", HEADER + "\n" + "\n".join(defs), gcases, shard=400, label="zero_guard")
     # max_ passed as the int 1 (the function's default) - oracle only
     for a in grid:
         for b in (0, 1, 2.5, -1, True):
